@@ -44,6 +44,8 @@ def run(ch: Checker) -> None:
                      'the handler has already queued 400 for parse failures', 3)
     ch.rule('C06.6', 'every header map handed to a response/request builder that writes into it (okResponse, build_http_response, ...) is created for that one message, '
                      'never a module-level or class-level map: otherwise headers computed for one response (Content-Encoding, Content-Length, Connection) leak into later ones', 3)
+    ch.rule('C06.9', 'HttpProtocolHandler.handle_events: on every path where neither write side tore down and reading has not been torn down, handle_readables() is called, and '
+                     'after it (unless it tore down) the plugin\'s read_from_descriptors(): a request that arrives is read and an upstream answer is fetched', 1)
     ch.rule('C06.5', 'canned packets in responses.py carry the status code they are named after and a non-empty reason', 7)
 
     # ---------------- C06.1 call sites
@@ -241,6 +243,50 @@ def run(ch: Checker) -> None:
         ok5 = info is not None and info['status'] == want and bool(info['reason'])
         ch.check(bool(ok5), 'C06.5', None, name, 'status %d with a reason' % want,
                  '%s evaluates to status %s reason %r (expected %d)' % (name, info['status'] if info else None, info['reason'] if info else None, want), module_rel='proxy/http/responses.py')
+
+    # ---------------- C06.9 the read side runs
+    he9 = prog.own_method('HttpProtocolHandler', 'handle_events')
+    g9 = cfg_of(he9, prog, exc_edges=False)
+    from ..cfg import atom_key
+    bad9 = None
+    n9 = 0
+    for p in fpaths(g9):
+        ch.paths += 1
+        if p.exit_kind != 'return':
+            continue
+        # state of reads_teared as last tested before any read call; write side results
+        first_rt = None
+        wrote_teared = False
+        calls_hr = calls_pr = False
+        rt_after_hr = None
+        plugin = None
+        for i, nd, lab in p.executed():
+            if nd.ast is None:
+                continue
+            if nd.kind == 'test' and lab in (True, False):
+                k, pol = atom_key(nd.ast, lab)   # type: ignore[arg-type]
+                if k == 'self.writes_teared' and pol:
+                    wrote_teared = True
+                if k == 'self.reads_teared':
+                    if first_rt is None and not calls_hr:
+                        first_rt = pol
+                    elif calls_hr and rt_after_hr is None:
+                        rt_after_hr = pol
+                if k == 'self.plugin' and calls_hr:
+                    plugin = pol
+            for c in walk_no_nested(nd.ast):
+                if isinstance(c, ast.Call) and attr_chain(c.func) == 'self.handle_readables':
+                    calls_hr = True
+                if isinstance(c, ast.Call) and attr_chain(c.func) == 'self.plugin.read_from_descriptors':
+                    calls_pr = True
+        if wrote_teared:
+            continue
+        n9 += 1
+        if first_rt is not True and not calls_hr:
+            bad9 = ('handle_events returns without calling handle_readables() although neither write side tore down and reads were not torn down: data the client sent is never read', p.describe(18))
+        if calls_hr and rt_after_hr is False and plugin is True and not calls_pr:
+            bad9 = ('the plugin\'s read_from_descriptors() is skipped after a successful client read: the upstream\'s answer is never fetched', p.describe(18))
+    ch.check(bad9 is None and n9 > 0, 'C06.9', he9, 'read side runs', 'client and plugin descriptors are read on all %d path(s) where nothing tore down' % n9, bad9[0] if bad9 else 'no such path', witness=bad9[1] if bad9 else None)
 
     # ---------------- C06.6 per-message header maps
     from .common import fresh_headers_check
